@@ -8,7 +8,8 @@
     heap invariant over the same cursors, returns that same element — so "container/heap pops the extreme element"
     is no longer an assumption of C03/C07 but a theorem about the transcription of heap.go. *)
 From Coq Require Import List Arith NArith ZArith Bool Permutation.
-From Verif Require Import Base.BStr Txcache.TxTypes Txcache.Selection Txcache.Pool Txcache.Heap Txcache.Heap_proofs.
+From Verif Require Import Base.BStr Txcache.TxTypes Txcache.Selection Txcache.Pool Txcache.Heap Txcache.Heap_proofs
+  Txcache.Pool_proofs Txcache.Pool_props Txcache.HeapLoop Txcache.HeapLoop_proofs.
 Import ListNotations.
 Open Scope nat_scope.
 
@@ -84,6 +85,51 @@ Proof. exact heap_pop_empty_sel. Qed.
 Theorem C07_heap_pop_empty : forall h, Permutation h (@nil ecursor) -> pop evi_less h = None /\ worst_index [] 0 None = None.
 Proof. exact heap_pop_empty_evi. Qed.
 
+(** ---------- the whole loops, end to end ----------
+    HeapLoop.v transcribes [selectTransactionsFromBunches] and [evictLeastLikelyToSelectTransactions] WITH their
+    heap (heap.Init, one heap.Push per bunch, heap.Pop / heap.Push in the loop).  They compute exactly what the
+    models used everywhere else (Selection.v with [pick_best], Pool.v with [worst_index]) compute. *)
+
+(** selection: same transactions in the same order, same accumulated gas — every session, every list of bunches
+    with pairwise distinct hashes, every gas / count limit *)
+Theorem C03_heap_select_is_select : forall sess bs g m, NoDup (map hash (concat bs)) ->
+  heap_select sess bs g m = select sess bs g m.
+Proof. exact heap_select_is_select. Qed.
+
+(** ... and after any number of iterations (what a time budget that stops the loop early observes): same selection so
+    far, same gas, same consumed balances, the heap slice is a heap over the model's cursors *)
+Theorem C03_heap_loop_is_loop : forall sess bs g m fuel, NoDup (map hash (concat bs)) ->
+  let hs := hloop sess g m fuel (hinit_st bs) in let ms := loop sess g m pick_best fuel (init_st bs) in
+  selected hs = selected ms /\ accGas hs = accGas ms /\ consumed hs = consumed ms /\
+  Permutation (cursors hs) (cursors ms) /\ heap_ok sel_less (cursors hs).
+Proof. exact heap_loop_is_loop. Qed.
+
+(** ... in particular on every reachable pool *)
+Theorem C03_heap_select_reachable : forall cfg ops sess g m, hist_ok ops ->
+  heap_select sess (bunches (run_pool cfg ops)) g m = select_txs (run_pool cfg ops) sess g m.
+Proof.
+  intros cfg ops sess g m H. apply heap_select_is_select. apply inv_hash_NoDup. apply run_pool_inv. exact H.
+Qed.
+
+(** eviction: all passes, the resulting pool is the same — every pool satisfying the invariant, every configuration *)
+Theorem C07_heap_eviction_is_eviction : forall cfg p, Inv p -> hdo_eviction cfg p = do_eviction cfg p.
+Proof. exact heap_eviction_is_eviction. Qed.
+
+Theorem C07_heap_eviction_reachable : forall cfg ops, hist_ok ops ->
+  hdo_eviction cfg (run_pool cfg ops) = do_eviction cfg (run_pool cfg ops).
+Proof. intros cfg ops H. apply heap_eviction_is_eviction. apply run_pool_inv. exact H. Qed.
+
+(** the heap loop runs (four senders, PPU ties, a fee above 2^64): same answer as the model *)
+Example C03_heap_select_runs :
+  let t h s (gl : N) (f : Z) := mkTx h s 0%N gl 100%N 100%Z f None [] in
+  let bs := [ [t [1%N] [65%N] 50000%N 50000000%Z; t [5%N] [65%N] 50000%N 60000000%Z]; [t [2%N] [66%N] 50000%N 18446744073709651616%Z];
+              [t [3%N] [67%N] 75000%N 75000000%Z]; [t [4%N] [68%N] 50000%N 50000000%Z] ] in
+  let sess := mkSession (fun _ => Some (0%N, 36893488147419103232%Z)) (fun _ => false) in
+  map hash (fst (heap_select sess bs 10000000%N 100)) = [[2%N]; [3%N]; [1%N]; [4%N]] /\
+  heap_select sess bs 10000000%N 100 = select sess bs 10000000%N 100 /\
+  NoDup (map hash (concat bs)).
+Proof. vm_compute. split; [reflexivity|split; [reflexivity|]]. repeat constructor; simpl; intuition discriminate. Qed.
+
 (** the transcription runs; the values are those Go's container/heap produces on the same input
     (checked against `go run` with h.Less(i,j) = h[i] < h[j]) *)
 Example C03_heap_runs :
@@ -130,3 +176,8 @@ Print Assumptions C03_heap_pop_is_pick_best.
 Print Assumptions C07_heap_pop_is_worst.
 Print Assumptions C03_heap_pop_empty.
 Print Assumptions C07_heap_pop_empty.
+Print Assumptions C03_heap_select_is_select.
+Print Assumptions C03_heap_loop_is_loop.
+Print Assumptions C03_heap_select_reachable.
+Print Assumptions C07_heap_eviction_is_eviction.
+Print Assumptions C07_heap_eviction_reachable.
